@@ -5,6 +5,7 @@ go 1.22.6
 require (
 	github.com/buildkite/go-pipeline v0.0.0
 	github.com/buildkite/interpolate v0.1.5
+	github.com/davecgh/go-spew v1.1.2-0.20180830191138-d8f796af33cc
 	github.com/lestrrat-go/jwx/v2 v2.1.4
 	gopkg.in/yaml.v3 v3.0.1
 )
